@@ -7,6 +7,7 @@ import (
 	"os"
 	"os/exec"
 	"strings"
+	"sync"
 
 	"github.com/go-openapi/jsonpointer"
 	"github.com/go-openapi/spec"
@@ -257,6 +258,11 @@ func c17Judge(c *Ctx, si int, e c17Exec, bound int, report bool) string {
 }
 
 func c17RunCase(c *Ctx, raw []byte) string {
+	var probe map[string]interface{}
+	if json.Unmarshal(raw, &probe) == nil && probe["racepass"] == true {
+		c17RacePass(c)
+		return "racepass"
+	}
 	var cs c17Case
 	if err := json.Unmarshal(raw, &cs); err != nil {
 		panic(err)
@@ -315,6 +321,9 @@ func c17Run(c *Ctx) {
 	}
 	c.Bound("preemptions", fmt.Sprint(bound))
 	c.Bound("threads", "2 (one scenario with 3)")
+	if !c.Quick() && c.Shard == 0 {
+		c17RacePass(c)
+	}
 	scs := c17Scenarios()
 	for si, sc := range scs {
 		if c.Expired() {
@@ -378,7 +387,64 @@ func c17Run(c *Ctx) {
 	}
 }
 
+// racePassMain: `vcheck racepass <iterations>` - the scenario bodies in real, free-running goroutines
+// (plain build + Go race detector). Auxiliary: it samples schedules, it can only add reports.
+func racePassMain(args []string) {
+	iters := 200
+	if len(args) > 0 {
+		fmt.Sscan(args[0], &iters)
+	}
+	n := 0
+	for _, sc := range c17Scenarios() {
+		if sc.Fresh {
+			continue
+		}
+		for i := 0; i < iters; i++ {
+			sh := c17Setup(sc)
+			var wg sync.WaitGroup
+			for _, op := range sc.Threads {
+				body := c17Body(op, sh)
+				wg.Add(1)
+				go func() {
+					defer wg.Done()
+					body()
+				}()
+			}
+			wg.Wait()
+			n++
+		}
+	}
+	fmt.Printf("racepass: %d free-running executions, no report\n", n)
+}
+
+// c17RacePass runs the auxiliary pass (thorough tier) and turns a detector report into a violation.
+func c17RacePass(c *Ctx) {
+	bin := os.Getenv("VERIF_RACE_BIN")
+	if _, err := os.Stat(bin); err != nil || bin == "" {
+		c.Note("auxiliary race-detector pass skipped (no -race build)")
+		return
+	}
+	for _, procs := range []string{"2", "16"} {
+		cmd := exec.Command(bin, "racepass", "150")
+		cmd.Env = append(os.Environ(), "GOMAXPROCS="+procs, "GORACE=halt_on_error=1 exitcode=66")
+		var stderr bytes.Buffer
+		cmd.Stderr = &stderr
+		out, err := cmd.Output()
+		c.Count("auxiliary_race_detector_executions", 150*7)
+		if err != nil && strings.Contains(stderr.String(), "DATA RACE") {
+			c.Violate(Violation{Oracle: "concurrency", Class: "data-race(go race detector, free-running)", Detail: tail(stderr.String(), 3000),
+				Features: map[string]string{"symptom": "data-race-detector", "sigx": "GOMAXPROCS=" + procs},
+				Case:     map[string]interface{}{"racepass": true, "gomaxprocs": procs, "note": "free-running schedule: the report is the artefact; re-run `vcheck-race racepass`"}})
+			return
+		} else if err != nil {
+			c.Note("auxiliary race-detector pass ended abnormally: " + tail(stderr.String(), 300))
+		}
+		_ = out
+	}
+}
+
 func init() {
+	extraCommands["racepass"] = racePassMain
 	extraCommands["sched"] = schedMain
 	register(&CheckDef{
 		ID: "C17", Build: "instr", Run: c17Run, RunCase: c17RunCase,
